@@ -1104,6 +1104,9 @@ pub fn run(a: &Args, corpus: &[Value]) {
         }
     }
     if a.replay.is_some() {
+        if corpus.iter().any(|v| v["profile"].as_str() == Some("release")) && std::env::var("C01_SEARCH_ONLY").is_err() {
+            release_child(&mut rep, a);
+        }
         rep.finish();
         return;
     }
@@ -1134,6 +1137,13 @@ pub fn run(a: &Args, corpus: &[Value]) {
         rep.extra.insert("slowest_case".into(), json!({"ms": worst.0 as f64 / 1000.0, "frontend": cases[worst.1].fe, "chars": cases[worst.1].text.chars().count()}));
     }
     rep.sample(json!({"search_case": cases.get(7).map(|c| c.to_json())}));
+    if std::env::var("C01_SEARCH_ONLY").is_ok() {
+        // the release-profile child of the thorough tier: the search only (the correspondence compares panics, and
+        // overflow panics are exactly what the release profile does not have)
+        rep.extra.insert("profile".into(), json!(if cfg!(debug_assertions) { "dev" } else { "release" }));
+        rep.finish();
+        return;
+    }
     if hangs > 0 {
         // the code under test hangs somewhere: the single-threaded parts below have no watchdog
         rep.extra.insert("skipped_after_hangs".into(), json!(["correspondence", "scaling_probe"]));
@@ -1155,7 +1165,83 @@ pub fn run(a: &Args, corpus: &[Value]) {
         let loc = last_panic_location();
         rep.fail("panic_unattributed", format!("panic in lint at {}: {} (scaling probe)", loc.strip_prefix("/repo/").unwrap_or(&loc), m.chars().take(300).collect::<String>()), json!({"kind": "scaling"}));
     }
+    if a.thorough() && std::env::var("C01_NO_RELEASE").is_err() {
+        release_child(&mut rep, a);
+    }
     rep.finish();
+}
+
+/// Thorough tier: the same search once more under the RELEASE profile (harness/Cargo.toml [profile.release]:
+/// overflow-checks = false, debug-assertions = false — arithmetic wraps instead of panicking, `debug_assert!` is gone;
+/// finding F30 was visible in the dev profile only, the opposite can happen: a wrapped length that indexes out of range
+/// or loops).  Builds `c01` with `cargo build --release` into a target directory of its own, runs it as a child in
+/// search-only mode (same tier, same seed, same corpus / replay file) and merges its failures (input tagged
+/// `"profile": "release"`, ` [release profile]` appended to `what`), monitors and distribution into this report.
+/// A build or run failure of the child ends this process with a non-zero exit code (./check: harness-run).
+fn release_child(rep: &mut Report, a: &Args) {
+    let t0 = Instant::now();
+    let target = std::env::var("C01_RELEASE_TARGET").unwrap_or_else(|_| "/verif/.work/c01-release-target".into());
+    let _ = std::fs::create_dir_all(&target);
+    let build = std::process::Command::new("cargo")
+        .args(["build", "--release", "--offline", "--bin", "c01"])
+        .current_dir(env!("CARGO_MANIFEST_DIR"))
+        .env("CARGO_TARGET_DIR", &target)
+        .env("CARGO_NET_OFFLINE", "true")
+        .env("CARGO_INCREMENTAL", "0")
+        .output();
+    let built = matches!(&build, Ok(o) if o.status.success());
+    if !built {
+        let msg = match build {
+            Ok(o) => String::from_utf8_lossy(&o.stderr).chars().rev().take(1500).collect::<String>().chars().rev().collect::<String>(),
+            Err(e) => e.to_string(),
+        };
+        eprintln!("c01: release-profile build failed: {msg}");
+        std::process::exit(3);
+    }
+    let build_s = t0.elapsed().as_secs_f64();
+    let wd = format!("{}/release", a.out);
+    let mut cmd = std::process::Command::new(format!("{target}/release/c01"));
+    cmd.args([a.tier.as_str(), &a.seed.to_string(), &wd]).env("C01_SEARCH_ONLY", "1");
+    match &a.replay {
+        Some(f) => cmd.args(["--replay", f]),
+        None => cmd.args(["--corpus", concat!(env!("CARGO_MANIFEST_DIR"), "/../corpus/C01")]),
+    };
+    let t1 = Instant::now();
+    let out = cmd.output();
+    let child: Option<Value> = std::fs::read_to_string(format!("{wd}/report.json")).ok().and_then(|s| serde_json::from_str(&s).ok());
+    let ok = matches!(&out, Ok(o) if o.status.success());
+    let Some(child) = child.filter(|_| ok) else {
+        eprintln!("c01: release-profile child failed: {:?}", out.map(|o| String::from_utf8_lossy(&o.stderr).chars().take(1500).collect::<String>()));
+        std::process::exit(3);
+    };
+    let mut n_fail = 0;
+    for f in child["failures"].as_array().cloned().unwrap_or_default() {
+        let mut input = f["input"].clone();
+        if let Some(o) = input.as_object_mut() {
+            o.insert("profile".into(), json!("release"));
+        }
+        rep.fail(f["class"].as_str().unwrap_or("panic"), format!("{} [release profile]", f["what"].as_str().unwrap_or("")), input);
+        n_fail += 1;
+    }
+    for (k, v) in child["monitors"].as_object().cloned().unwrap_or_default() {
+        rep.monitor(&k, v.as_u64().unwrap_or(0));
+    }
+    let mut docs = 0;
+    for (k, v) in child["distribution"].as_object().cloned().unwrap_or_default() {
+        if !k.starts_with("fail:") {
+            rep.count_n(&format!("release:{k}"), v.as_u64().unwrap_or(0));
+        }
+        if k.starts_with("frontend:") {
+            docs += v.as_u64().unwrap_or(0);
+        }
+    }
+    rep.evaluations += child["evaluations"].as_u64().unwrap_or(0);
+    rep.extra.insert(
+        "release_search".into(),
+        json!({"profile": child["extra"]["profile"], "evaluations": child["evaluations"], "distinct_nontrivial": child["distinct_nontrivial"], "documents_by_frontend_total": docs,
+               "failures": n_fail, "build_s": (build_s * 10.0).round() / 10.0, "run_s": (t1.elapsed().as_secs_f64() * 10.0).round() / 10.0,
+               "search_wall_s": child["extra"]["search_wall_s"], "slowest_case": child["extra"]["slowest_case"]}),
+    );
 }
 
 fn main() {
